@@ -208,3 +208,167 @@ def parity(t, why=None, field_parity=None):
             return EVEN
         return note(t, UNKNOWN)
     return par(t)
+
+
+# ---- units (mass dimension) --------------------------------------------------------------------
+ANY = "any"          # a literal zero / unconstrained
+UERR = "unit-error"
+
+
+class UnitFail(Exception):
+    def __init__(self, msg, term):
+        Exception.__init__(self, msg)
+        self.term = term
+
+
+GEV1_FIELDS = {"Mu", "MassB", "MassWB", "MassG", "vd", "vu", "scale", "Ae", "Au", "Ad", "TYe", "TYu", "TYd",
+               "mb_DRbar_MZ", "v1", "v2",
+               # THDM parameter structs
+               "mm", "mw", "mz", "mhSM", "mA", "mHp", "mh", "ml", "mu", "md", "mv"}
+GEV2_FIELDS = {"ml2", "me2", "mq2", "mu2", "md2", "BMu", "mHd2", "mHu2", "m122", "m112", "m222"}
+GEV0_FIELDS = {"g1", "g2", "g3", "Ye", "Yu", "Yd", "EL", "EL0", "alpha_em", "tb", "zetal", "cos_beta_minus_alpha",
+               "lambda5", "lambda67", "vckm", "yuh", "yuH", "yuA", "yuHp", "ydh", "ydH", "ydA", "ydHp", "ylh", "ylH",
+               "ylA", "ylHp", "lambda1", "lambda2", "lambda3", "lambda4", "lambda5", "lambda6", "lambda7",
+               "verbose_output", "force_output", "qf", "ql", "t3f", "t3l", "nc", "qd", "qu", "mw2_", "eps"}
+import re as _re
+_MASS_FIELD = _re.compile(r"^M(S|F|V|C|G|A|h|H)[A-Za-z0-9]*$")
+DIMLESS_FUNCS = {"log", "exp", "dilog", "f_PS", "f_S", "f_sferm", "F1C", "F2C", "F3C", "F4C", "F1N", "F2N", "F3N", "F4N",
+                 "G3", "G4", "Fa", "Fb", "sin", "cos", "tan", "atan", "asin", "acos", "log1p", "clausen_2",
+                 "f_CSl", "f_CSd", "f_CSu", "FPZ", "FSZ", "FCWl", "FCWu", "FCWd", "F1", "F1t", "F2", "F3"}
+SAME_DIM_FUNCS = {"abs", "real", "imag", "conj", "conjugate", "cwiseAbs", "array", "matrix", "transpose", "adjoint",
+                  "col", "row", "diagonal", "asDiagonal", "sum", "maxCoeff", "minCoeff", "eval", "head", "tail",
+                  "signed_abs_sqrt_keepdim", "fabs", "neg"}
+
+
+def field_dim(name):
+    if name in GEV2_FIELDS:
+        return Fraction(2)
+    if name in GEV1_FIELDS or _MASS_FIELD.match(name):
+        return Fraction(1)
+    if name in GEV0_FIELDS or name in MIXING_FIELDS or _re.match(r"^(Z[A-Z]\w*|U[MP]|V[ude]|U[ude])$", name):
+        return Fraction(0)
+    return None
+
+
+def unify(a, b, t):
+    if a is None or b is None:
+        return None
+    if a == ANY:
+        return b
+    if b == ANY:
+        return a
+    if a != b:
+        raise UnitFail("operands of dimension GeV^%s and GeV^%s are combined" % (a, b), t)
+    return a
+
+
+def units(t, param_dims=None, summaries=None):
+    """mass dimension of term t (Fraction), ANY, or None (unknown); raises UnitFail on a definite mismatch"""
+    param_dims = param_dims or {}
+    summaries = summaries or {}
+
+    def u(t):
+        h = t[0]
+        if h == "num":
+            return ANY if t[1] == 0 else Fraction(0)
+        if h == "sym":
+            return param_dims.get(t[1])
+        if h in ("enum", "str", "null"):
+            return Fraction(0)
+        if h == "field":
+            d = field_dim(t[2])
+            if d is None and t[2] in ("physical", "sm", "problems"):
+                return None
+            return d
+        if h == "elem":
+            return u(t[1])
+        if h in ("+", "-"):
+            return unify(u(t[1]), u(t[2]), t)
+        if h == "neg":
+            return u(t[1])
+        if h == "*":
+            a, b = u(t[1]), u(t[2])
+            if a == ANY or b == ANY:
+                return ANY
+            return None if a is None or b is None else a + b
+        if h == "/":
+            a, b = u(t[1]), u(t[2])
+            if a == ANY:
+                return ANY
+            if b == ANY:
+                b = Fraction(0)
+            return None if a is None or b is None else a - b
+        if h == "cmp":
+            unify(u(t[2]), u(t[3]), t)
+            return Fraction(0)
+        if h in ("and", "or", "not"):
+            for x in t[1:]:
+                u(x)
+            return Fraction(0)
+        if h == "ite":
+            u(t[1])
+            return unify(u(t[2]), u(t[3]), t)
+        if h == "call":
+            name = str(t[1]).split("::")[-1]
+            args = t[2]
+            if name in DIMLESS_FUNCS:
+                for a in args:
+                    d = u(a)
+                    if d is not None and d != ANY and d != 0:
+                        raise UnitFail("argument of %s() has dimension GeV^%s (must be dimensionless)" % (name, d), t)
+                return Fraction(0)
+            if name == "sqrt":
+                d = u(args[0])
+                return d if d in (None, ANY) else d / 2
+            if name in ("norm", "cwiseAbs2", "square", "squaredNorm"):
+                d = u(args[0])
+                return d if d in (None, ANY) else d * 2
+            if name in ("cwiseInverse", "inverse"):
+                d = u(args[0])
+                return d if d in (None, ANY) else -d
+            if name in ("cwiseSqrt",):
+                d = u(args[0])
+                return d if d in (None, ANY) else d / 2
+            if name in SAME_DIM_FUNCS or name in ("cwiseAbs",):
+                return u(args[0])
+            if name in ("min", "max", "fmin", "fmax", "cwiseMin", "cwiseMax"):
+                d = u(args[0])
+                for a in args[1:]:
+                    d = unify(d, u(a), t)
+                return d
+            if name in ("cwiseProduct",):
+                a, b = u(args[0]), u(args[1])
+                return None if a is None or b is None else (ANY if ANY in (a, b) else a + b)
+            if name in ("cwiseQuotient",):
+                a, b = u(args[0]), u(args[1])
+                return None if a is None or b is None else (ANY if a == ANY else a - (0 if b == ANY else b))
+            if name == "pow" and len(args) == 2 and args[1][0] == "num":
+                d = u(args[0])
+                return d if d in (None, ANY) else d * args[1][1]
+            if name in ("Ixyz",):           # homogeneous of degree -1 in its (squared-mass) arguments
+                d = u(args[0])
+                for a in args[1:]:
+                    d = unify(d, u(a), t)
+                return d if d in (None, ANY) else -d
+            if name in ("complex",):
+                return unify(u(args[0]), u(args[1]), t)
+            if name in ("isfinite", "isnan", "is_zero", "is_equal", "is_equal_rel", "allFinite", "sign"):
+                return Fraction(0)
+            if name in ("quiet_NaN", "epsilon", "max_", "signaling_NaN"):
+                return ANY
+            if name in summaries:
+                return summaries[name](args, u, t)
+            if str(t[1]) in summaries:
+                return summaries[str(t[1])](args, u, t)
+            return None
+        if h == "mat":
+            d = ANY
+            for _, _, v in t[3]:
+                d = unify(d, u(v), t)
+            return d
+        if h == "struct":
+            return None
+        if h in ("unknown", "obj", "this", "throw", "void", "func", "lambda", "default", "member"):
+            return None
+        return None
+    return u(t)
